@@ -56,7 +56,7 @@ def inject(rng, elab, items, kind):
             new = [rng.choice(["<", "<>", "</", "<a b c>", "(x) y", "<a", "a>b (", "<a (b)>", "< a>"])]
             exp = ["syntax"]
         elif kind == "directive":
-            new = [rng.choice(["%bogus x", "%define", "%include", "%import", "%DEFINE a b", "%defines a b", "%", "% define a"])]
+            new = [rng.choice(["%bogus x", "%define", "%include", "%import", "%DEFINE a b", "%defines a b", "%", "% define a", "%Include x", "%Import p", "% include x"])]
             exp = ["syntax"]
         elif kind == "undefined-subst":
             new = [rng.choice(["somekey $undefined_zcv", "somekey a${undefined_zcv}b", "somekey $(NOSUCHENV_ZCV)",
@@ -70,6 +70,8 @@ def inject(rng, elab, items, kind):
             if children is None or any(c[1][0] == "key" and c[1][1] == "+" for c in children):
                 return None
             new = ["nosuchkey v" if kt != "ipaddr-or-hostname" else "no-such.key v"]
+            if rng.random() < 0.4:
+                new = [new[0].split()[0]]        # the key alone on its line (an empty value)
             exp = ["plain"]
         elif kind == "bad-key":
             new = [rng.choice(["1bad v", "-x v", "a:b v"])]
@@ -114,7 +116,10 @@ def inject(rng, elab, items, kind):
         if not cands:
             return None
         r = rng.choice(cands)
-        lines.insert(r["line"] + 1, lines[r["line"]])
+        dup = lines[r["line"]]
+        if rng.random() < 0.4:
+            dup = dup[: len(dup) - len(dup.lstrip())] + dup.split()[0]     # the repeated key alone on its line
+        lines.insert(r["line"] + 1, dup)
         return lines, r["line"] + 2, ["plain"], {}
     if kind == "bad-value":
         cands = []
